@@ -141,6 +141,23 @@ class Access:
             return
         if isinstance(f, ast.Attribute):
             recv = f.value
+            if isinstance(recv, ast.Call) and isinstance(recv.func, ast.Name) and recv.func.id == "super" and role == "algo":
+                # super().m(..) / super(C, self).m(..): the next definition of m after the class that contains the call
+                encl = self.model.enclosing_function(call)
+                here = None
+                for c0 in self.model.classes.values():
+                    if encl is not None and any(fn0 is encl for fn0 in c0.methods.values()):
+                        here = c0.name
+                start = recv.args[0].id if (recv.args and isinstance(recv.args[0], ast.Name) and recv.args[0].id in self.model.classes) else here
+                if start is not None:
+                    for c1 in self.model.mro(start)[1:]:
+                        if m in c1.methods:
+                            r, w, mw = self.summary(c1.methods[m], role)
+                            R |= r
+                            W |= w
+                            must |= mw
+                            break
+                return
             if isinstance(recv, ast.Name) and recv.id == "self":
                 owner, fn = (self.model.lookup(self.cls, m) if role == "algo" else
                              (lambda c_f: (self.model.classes[c_f[0]], c_f[1]) if c_f[1] is not None else (None, None))(self.node_method(m)))
